@@ -10,6 +10,7 @@ from ..model import AnalysisError
 from ..report import key_of
 from . import Mutant, meta, rule
 from . import c15 as _c15
+from . import c14 as _c14
 
 SC = 'flax/core/scope.py'
 MO = 'flax/linen/module.py'
@@ -398,6 +399,11 @@ def r7(R, repo):
   unp = [n for n in astu.body_walk(m2.node) if isinstance(n, ast.Assign) and n.value is calls[0]]
   ok = len(unp) == 1 and isinstance(unp[0].targets[0], ast.Tuple) and len(rets) == 1 and astu.src(rets[0].value) == astu.src(unp[0].targets[0].elts[1])
   R.check(ok, key_of(m2, 'returns the variables (second element)'), m2, 'Module.init must return the second element (the variables) of init_with_output')
+
+
+@rule('C01.R8', 'K8', 16, 'the mutability filter is exact membership (a name never matches by substring or inverted DenyList)')
+def r8(R, repo):
+  _c14.check_in_filter(R, repo)
 
 
 meta('C01',
